@@ -35,3 +35,24 @@ Theorem C04_initial :
 Proof. exact SpecFacts.reach_init. Qed.
 Print Assumptions C04_initial.
 
+(** UNDER CONCURRENCY (release/acquire machines, any interleaving / stale read / window sizes; Conc/OrderFacts.v): at every moment -
+    also in mid-operation - consumer <= worker <= producer and the producer is fewer than len slots ahead of the consumer *)
+Require MRB.Conc.OrderFacts.
+Theorem C04_order_concurrent :
+  forall len script, 0 < len ->
+  let c := RA3n.exec3_n len (RA3n.init3_n len) script in
+  RA3n.pos3 (RA3n.C3 c) <= RA3n.pos3 (RA3n.W3 c) /\ RA3n.pos3 (RA3n.W3 c) <= RA3n.pos3 (RA3n.P3 c) /\
+  RA3n.pos3 (RA3n.P3 c) + 1 <= RA3n.pos3 (RA3n.C3 c) + len /\
+  RA3n.pos3 (RA3n.C3 c) + RA3n.off3 (RA3n.C3 c) <= RA3n.pos3 (RA3n.W3 c) /\
+  RA3n.pos3 (RA3n.W3 c) + RA3n.off3 (RA3n.W3 c) <= RA3n.pos3 (RA3n.P3 c) /\
+  RA3n.pos3 (RA3n.P3 c) + RA3n.off3 (RA3n.P3 c) + 1 <= RA3n.pos3 (RA3n.C3 c) + len.
+Proof. exact OrderFacts.order_always_3n. Qed.
+Print Assumptions C04_order_concurrent.
+
+Theorem C04_order_concurrent_reset_detached :
+  forall len script, 0 < len ->
+  let c := RAx.exec_x len (RAx.init_x len) script in
+  RAx.pos (RAx.C c) + RAx.off (RAx.C c) <= RAx.pos (RAx.P c) /\
+  RAx.pos (RAx.P c) + RAx.off (RAx.P c) + 1 <= RAx.pos (RAx.C c) + len.
+Proof. exact OrderFacts.order_always_x. Qed.
+Print Assumptions C04_order_concurrent_reset_detached.
